@@ -7,7 +7,7 @@
 
     srcOps       leaf cursors: memtable.IteratorAdapter, sstable.IteratorAdapter, transaction.BufferIterator
     hierOps      composite.HierarchicalIterator            (findNextUniqueKey / Seek / SeekToLast / Next)
-    boundedOps   bounded.BoundedIterator                   (checkBounds, SeekToLast exactly as coded)
+    boundedOps   bounded.BoundedIterator                   (checkBounds; SeekToLast as repaired in 8151b8c)
     filteredOps  filtered.FilteredIterator                 (prefix / suffix; nesting = composing twice)
     sumOps       a list of children of two different shapes (transaction buffer + storage iterator)
     consume      the consumer loop of the gRPC service (Scan / TxScan): tombstones skipped, limit counts live entries
@@ -193,11 +193,14 @@ def inRange (lo hi : Option Bytes) (k : Bytes) : Bool :=
 /-- checkBounds -/
 def bcheck {σ : Type} (O : Ops σ) (lo hi : Option Bytes) (c : σ) : Bool := O.valid c && inRange lo hi (O.k c)
 
-/-- the scan of SeekToLast: `for Valid() && Compare(Key(), end) < 0 { lastKey = Key(); Next() }` -/
+/-- the scan of SeekToLast: `for Valid() && Compare(Key(), end) < 0 { lastKey = append(lastKey[:0], Key()...); Next() }`
+    (appending an empty key to a nil `lastKey` leaves it nil) -/
 def walkBelow {σ : Type} (O : Ops σ) (hi : Bytes) : Nat → σ → Option Bytes → σ × Option Bytes
   | 0, c, lk => (c, lk)
   | fuel + 1, c, lk =>
-    if O.valid c && ltB (O.k c) hi then walkBelow O hi fuel (O.next c).1 (some (O.k c)) else (c, lk)
+    if O.valid c && ltB (O.k c) hi then
+      walkBelow O hi fuel (O.next c).1 (if (O.k c).isEmpty && lk.isNone then none else some (O.k c))
+    else (c, lk)
 
 def boundedOps {σ : Type} (O : Ops σ) (lo hi : Option Bytes) (fuel : Nat) : Ops σ where
   first := fun c => match lo with
@@ -205,13 +208,15 @@ def boundedOps {σ : Type} (O : Ops σ) (lo hi : Option Bytes) (fuel : Nat) : Op
     | none => O.first c
   last := fun c => match hi with
     | some e =>
-      let c1 := (O.seek c e).1
-      if O.valid c1 && O.k c1 == e then
-        let r := walkBelow O e fuel (O.first c1) none
-        match r.2 with
-        | some lk => (O.seek r.1 lk).1
-        | none => O.first r.1
-      else c1
+      -- walk forward from the start of the range, remember the last key below the end bound, seek back to it;
+      -- with no such key the iterator stays where the walk ended (exhausted or on a key ≥ end)
+      let c0 := match lo with
+        | some l => (O.seek c l).1
+        | none => O.first c
+      let r := walkBelow O e fuel c0 none
+      match r.2 with
+      | some lk => (O.seek r.1 lk).1
+      | none => r.1
     | none => O.last c
   seek := fun c t =>
     let t := match lo with
